@@ -5,7 +5,7 @@ The judge builds the transformed security parameter nibble by nibble from the pr
 from-scratch TDEA reference of props/c13.py, decimalises the result with its own two-scan routine, and XORs key
 components nibble-wise; cryptography is also called directly (without cardutil) and must agree with the reference."""
 import itertools
-from util import hb, hs, outcome
+from util import hb, hs, unhs, outcome
 from props.c13 import (tdes_key_bundle, kat_cases, kat_impl, kat_judge, lib_ecb, ref_ecb, is_digits, digits, pan_field, pack, nibbles, hex_key,
                        table, model_says, spec_value, rdigits, rkey)
 
@@ -196,7 +196,7 @@ def orders_for(rng, n, tier):
 
 def gen(rng, tier):
     reps = 1 if tier == 'quick' else 10
-    cases = kat_cases()
+    cases = [c for c in kat_cases() if c['alg'] == 'tdes']
     vias = ['func', 'iso0', 'iso4', 'iso0d']
     for via, pin, pan, kidx, key, want in DOC_PVV:
         cases.append({'kind': 'pvv', 'via': via, 'pin': pin, 'pan': pan, 'kidx': kidx, 'key': key, 'expect': want})
@@ -413,8 +413,7 @@ def out_pair(out):
         return None
     try:
         a, b = out[3:].split(',')
-        un = lambda t: '' if t == '_' else ''.join(chr(int(t[i:i + 4], 16)) for i in range(0, len(t), 4))
-        return un(a), un(b)
+        return ('' if a == '_' else unhs(a)), ('' if b == '_' else unhs(b))
     except ValueError:
         return None
 
@@ -461,9 +460,7 @@ def plan(case, io):
             out.append(('pvv_ct', 'pvv_ct ' + hb(ct)))
             out.append(('pvv_spec', 'pvv_spec ' + hb(ct)))
         elif k == 'pvv' and kb is not None and isinstance(io.get('tsp'), str) and io['tsp'].startswith('OK '):
-            t = io['tsp'][3:]
-            s = '' if t == '-' else ''.join(chr(int(t[i:i + 4], 16)) for i in range(0, len(t), 4))
-            tb_ = hex_key(s)
+            tb_ = hex_key(unhs(io['tsp'][3:]))
             if tb_ is not None and len(tb_) % 8 == 0:
                 ent.append((kb, tb_, ref_ecb('tdes', kb, tb_)))
         op = 'pvv' if case['via'] == 'func' else 'to_pvv'
